@@ -1,4 +1,4 @@
-import ParryModel.C17.Theorems8
+import ParryModel.C17.SectionLemmas
 /-!
 # C17 property theorems, part 9 (fu5): the orientation walk of `TriMesh::intersection_with_local_plane` (step 3)
 
@@ -27,10 +27,10 @@ def eraseEdge (adj : Array (List Nat)) (p c : Nat) : Array (List Nat) :=
   (adj.setIfInBounds p ((adj.getD p []).filter (· != c))).setIfInBounds c
     (((adj.setIfInBounds p ((adj.getD p []).filter (· != c))).getD c []).filter (· != p))
 
-theorem size_erase (adj : Array (List Nat)) (p c : Nat) : (eraseEdge adj p c).size = adj.size := by
+private theorem size_erase (adj : Array (List Nat)) (p c : Nat) : (eraseEdge adj p c).size = adj.size := by
   simp [eraseEdge]
 
-theorem edge_erase (adj : Array (List Nat)) (p c i j : Nat) (hp : p < adj.size) (hc : c < adj.size) :
+private theorem edge_erase (adj : Array (List Nat)) (p c i j : Nat) (hp : p < adj.size) (hc : c < adj.size) :
     AEdge (eraseEdge adj p c) i j ↔ AEdge adj i j ∧ ¬ (i = p ∧ j = c) ∧ ¬ (i = c ∧ j = p) := by
   simp only [AEdge, eraseEdge, getD_set, Array.size_setIfInBounds]
   by_cases h1 : i = c <;> by_cases h2 : i = p <;> by_cases h3 : c = p <;>
@@ -63,7 +63,7 @@ private theorem ltot_set_lt (L : List (List Nat)) : ∀ (i : Nat) (x : List Nat)
 private theorem getD_toList {α} (adj : Array α) (i : Nat) (d : α) : adj.toList.getD i d = adj.getD i d := by
   simp [Array.getD_eq_getD_getElem?, List.getD_eq_getElem?_getD]
 
-theorem atot_erase_lt (adj : Array (List Nat)) (p c : Nat) (h : AEdge adj p c) : atot (eraseEdge adj p c) < atot adj := by
+private theorem atot_erase_lt (adj : Array (List Nat)) (p c : Nat) (h : AEdge adj p c) : atot (eraseEdge adj p c) < atot adj := by
   have hp := aedge_lt adj p c h
   have s1 : atot (adj.setIfInBounds p ((adj.getD p []).filter (· != c))) < atot adj := by
     simp only [atot, Array.toList_setIfInBounds]
@@ -90,7 +90,7 @@ structure WInv (A adj : Array (List Nat)) (segs : List (Nat × Nat)) : Prop wher
   disj : ∀ s ∈ segs, ¬ AEdge adj s.1 s.2
   nodup : segs.Pairwise SegNe
 
-theorem winv_step (A adj : Array (List Nat)) (segs : List (Nat × Nat)) (p c : Nat) (fwd : Bool)
+private theorem winv_step (A adj : Array (List Nat)) (segs : List (Nat × Nat)) (p c : Nat) (fwd : Bool)
     (hI : WInv A adj segs) (he : AEdge adj p c) :
     WInv A (eraseEdge adj p c) (segs ++ [if fwd then (p, c) else (c, p)]) := by
   have hp := aedge_lt adj p c he
@@ -133,7 +133,7 @@ theorem winv_step (A adj : Array (List Nat)) (segs : List (Nat × Nat)) (p c : N
       cases fwd <;> simp at ht <;> subst ht <;> simp_all
 
 /-- the inner `loop`: invariant kept, at least one entry erased, edges are only erased; the fuel is sufficient -/
-theorem walk_spec (A : Array (List Nat)) : ∀ (fuel : Nat) (adj : Array (List Nat)) (segs : List (Nat × Nat)) (p c : Nat) (fwd : Bool),
+private theorem walk_spec (A : Array (List Nat)) : ∀ (fuel : Nat) (adj : Array (List Nat)) (segs : List (Nat × Nat)) (p c : Nat) (fwd : Bool),
     WInv A adj segs → AEdge adj p c → atot adj < fuel →
     WInv A (Section.walk fuel adj segs p c fwd).1 (Section.walk fuel adj segs p c fwd).2 ∧
     atot (Section.walk fuel adj segs p c fwd).1 < atot adj ∧
@@ -164,7 +164,7 @@ theorem walk_spec (A : Array (List Nat)) : ∀ (fuel : Nat) (adj : Array (List N
       exact ⟨r1, by omega, fun i j h => hsub i j (r3 i j h)⟩
 
 /-- the `while let Some(start) = index_adjacencies[first].first()` loop: afterwards `first` has no adjacency left -/
-theorem walksFrom_spec (A : Array (List Nat)) : ∀ (fuel : Nat) (adj : Array (List Nat)) (segs : List (Nat × Nat)) (first : Nat) (fwd : Bool),
+private theorem walksFrom_spec (A : Array (List Nat)) : ∀ (fuel : Nat) (adj : Array (List Nat)) (segs : List (Nat × Nat)) (first : Nat) (fwd : Bool),
     WInv A adj segs → atot adj < fuel →
     WInv A (Section.walksFrom fuel adj segs first fwd).1 (Section.walksFrom fuel adj segs first fwd).2 ∧
     atot (Section.walksFrom fuel adj segs first fwd).1 ≤ atot adj ∧
@@ -316,6 +316,23 @@ private theorem key_step {K : Type} [Num K] (n : V3 K) (bias eps : K) (V0 : Arra
     · rcases hL k k' hk hk' hne hc hc' with ⟨l1, l2⟩ | ⟨l1, l2⟩
       · exact ⟨o1, o2, l1, l2, (E _ _).mpr (Or.inr (Or.inl ⟨rfl, rfl⟩))⟩
       · exact ⟨o2, o1, l1, l2, (E _ _).mpr (Or.inr (Or.inr ⟨rfl, rfl⟩))⟩
+
+/-- **C17 (plane section, totality)**: on a mesh whose triangles index existing vertices (open, closed, non-manifold, degenerate
+or repeated triangles) `intersection_with_local_plane` never reaches an `assert!` / `unreachable!()` / out-of-range access, for any
+plane and any `eps ≥ 0`: every triangle classifies into a handled feature pair, and `add_segment_adjacencies` is always called with
+`idx_a ≤ index_adjacencies.len()`. (Termination of the orientation walk: `orient_spec`, part 9.) -/
+theorem section_never_panics (verts : List (V3 K)) (tris : List Tri) (n : V3 K) (bias eps : K) (he : 0 ≤ eps)
+    (hv : validMesh verts.length tris = true) :
+    letI := fieldNum K sq
+    (Section.localSection verts tris n bias eps).isSome = true := by
+  letI : Num K := fieldNum K sq
+  obtain ⟨st, e, _⟩ := stepLoop_ok sq n bias eps he verts.toArray _ tris (colours_ok sq verts tris n bias eps hv)
+    ⟨#[], [], [], #[]⟩ (fun _ _ => True) (sinv_init sq n bias eps _) trivial (fun _ _ _ _ _ _ _ _ => trivial)
+  simp only [Section.localSection, hv, Bool.not_true, Bool.false_eq_true, if_false]
+  cases meshVerdict verts n bias eps with
+  | negative => rfl
+  | positive => rfl
+  | pair _ _ => simp only [e]; rfl
 
 /-- **C17 (plane section, the polyline is exactly the union of the triangles' chords)**: when `intersection_with_local_plane`
 returns `Intersect(polyline)` (vertices `vs`, segments `segs`), for every mesh with valid indices, every plane and `eps ≥ 0`:
